@@ -58,6 +58,13 @@ typedef struct coap_ws_state_t {
   uint8_t *rx_data;     /**< Payload so far (data_ofs bytes) of a frame that
                              did not complete within one coap_ws_read() */
   uint8_t key[16];      /**< Random, but agreed key value */
+  uint8_t tx_header[COAP_MAX_FS]; /**< Header of the frame being sent */
+  uint8_t tx_hdr_len;   /**< Length of tx_header */
+  uint8_t tx_hdr_ofs;   /**< Bytes of tx_header taken by the lower layer */
+  size_t tx_data_ofs;   /**< Payload bytes of the frame being sent taken
+                             by the lower layer */
+  size_t tx_data_left;  /**< Payload bytes of the frame being sent still
+                             to be handed to the lower layer */
 } coap_ws_state_t;
 
 /*
